@@ -1,5 +1,6 @@
 SPECIFICATION Spec
 CONSTANTS
+  MaxRounds = 3
   MaxDepth = 3
   MaxDefects = 2
   MaxRenames = 1
